@@ -354,6 +354,27 @@ def run(chk, prog):
         if not ok:
             chk.finding("cache", ac.key, "cache-user", "", "%s:%s" % (ac.file, ac.line), "Cache::check is called outside AuthData::auth_cmd")
 
+        # the verdict of the external command: what is cached and returned is ExitStatus::success() of the finished command, or the
+        # constant false; success() is false for a non-zero exit AND for a command killed by a signal (exit code absent), which any
+        # hand-made test of the exit code gets wrong one way or the other
+        from ..flow import value_sources
+        sets = [c for c in ac.calls if re.search(r"^common::auth::Cache::set$", c.name or "")]
+        chk.floor("cmd-verdict", len(sets), 1, "Cache::set calls in auth_cmd")
+        for c in sets:
+            a = c.args[2] if len(c.args) > 2 else None
+            srcs = set()
+            if a is not None and const_int(a) is not None:
+                srcs.add(("const", const_int(a)))
+            elif a is not None and op_base(a) is not None:
+                srcs = value_sources(ac, op_base(a), c.bb)
+            okv = bool(srcs) and all((x[0] == "const" and x[1] == 0) or (x[0] == "call" and re.search(r"process::ExitStatus::success$", x[1].path or "")) for x in srcs)
+            shown = sorted("false" if x[0] == "const" and x[1] == 0 else (short(x[1].path) if x[0] == "call" else str(x[:2])) for x in srcs)
+            chk.instance("cmd-verdict", c.where(), "the verdict stored for the external auth command is ExitStatus::success() or false", okv, "sources: %s" % shown)
+            if not okv:
+                chk.finding("cmd-verdict", ac.key, "verdict-source", "", c.where(),
+                            "auth_cmd derives the verdict of the external command from %s instead of ExitStatus::success(): a command that is killed "
+                            "by a signal (no exit code) or fails in another way can count as 'credentials accepted', and the verdict is cached" % shown)
+
     # ---------------------------------------------------------------- (4) TLS server configs
     builders = []
     for f in prog.fns.values():
